@@ -204,3 +204,10 @@ pub proof fn lemma_splice_frame(base: St, p: Seq<u8>, w: St, k: Seq<u8>)
     ensures splice(base, p, w).contains_key(k) == base.contains_key(k), base.contains_key(k) ==> splice(base, p, w)[k] == base[k]
 {
 }
+
+// writing a window twice: the second write wins
+pub proof fn lemma_splice_twice(base: St, p: Seq<u8>, w1: St, w2: St)
+    ensures splice(splice(base, p, w1), p, w2) == splice(base, p, w2)
+{
+    assert(splice(splice(base, p, w1), p, w2) =~= splice(base, p, w2));
+}
